@@ -984,6 +984,7 @@ impl<'tcx> Cx<'tcx> {
                     ]),
                     AssertKind::Overflow(op, l, r) => J::obj(vec![
                         ("k", J::s("overflow")),
+                        ("ty", J::Str(self.ty_s(l.ty(&body.local_decls, self.tcx)))),
                         ("op", J::Str(format!("{:?}", op))),
                         ("l", self.op_j(body, env, l)),
                         ("r", self.op_j(body, env, r)),
